@@ -3,7 +3,7 @@
    reason given for undefined behaviour.  The generated functions thread [with_rng (rrl K V)]:
    the literal state plus the member m_mt, the list of draws still to come; the literal machine
    passes that list as an argument.  Compiled on every run against the freshly generated GenRr.v. *)
-Require Import Capp.Base Capp.Spec Capp.Rr Capp.RrFacts Capp.RrLit Capp.RrLitFacts Capp.GenPrims CappGen.GenRr.
+Require Import Capp.Base Capp.Spec Capp.Rr Capp.RrFacts Capp.RrLit Capp.RrLitFacts Capp.GenPrims Capp.Conc Capp.GenConc CappGen.GenRr.
 From Coq Require Import Strings.String Lia.
 
 Section RrBridge.
@@ -361,7 +361,23 @@ Section RrBridge.
       exists l', run_res g_step (g_init cap) h = Ok (l', snd (run rr_step (rr_init cap) h)) /\
                  rep l' (fst (run rr_step (rr_init cap) h)).
   Proof. intros cap h Hc F. rewrite g_init_ok. apply generated_rr_no_UB_on_any_history; auto. Qed.
+
+  (* ---- C06 on the translated program: in every execution of the lock-level machine (Conc.v, Section Lin: invoke,
+     acquire, body = one call of the generated program, release, return) every call returns what the mid-level
+     model returns when it runs the calls in the order of their critical sections ---- *)
+  Theorem generated_rr_lock_level_executions_return_model_results : forall cap ex st,
+      1 <= cap ->
+      mexec _ _ _ (tstep g_step RUnsupported) (minit _ _ _ (g_init cap)) ex st ->
+      let l := lin _ _ _ (tstep g_step RUnsupported) (g_init cap) (fun _ => None) ex in
+      (fun h => Forall (fun e => rnd_in_range cap (e_rnd e)) h) (map (fun c => snd (fst c)) l) ->
+      map snd l = (fun h => snd (run rr_step (rr_init cap) h)) (map (fun c => snd (fst c)) l).
+  Proof.
+    intros cap ex st Hc Hex.
+    refine (executions_have_the_results_of_the_model g_step RUnsupported (fun h => Forall (fun e => rnd_in_range cap (e_rnd e)) h) (fun h => snd (run rr_step (rr_init cap) h)) (g_init cap) _ ex st Hex).
+    intros h HP. destruct (generated_rr_constructed_no_UB_on_any_history cap h Hc HP) as (l' & D & _). eauto.
+  Qed.
 End RrBridge.
 
 Print Assumptions generated_rr_no_UB_on_any_history.
 Print Assumptions generated_rr_constructed_no_UB_on_any_history.
+Print Assumptions generated_rr_lock_level_executions_return_model_results.
